@@ -359,6 +359,27 @@ func varlinkE2E(cfg *runCfg, o *Obligation, dir string) (bool, string) {
 			rep.WriteString(l + "\n")
 		}
 	}
+	if !confirmed && !strings.Contains(e2eCache.out, "REPLAY-DONE") {
+		// the scenario binary died: an unrecovered panic in a library goroutine is itself a run of the
+		// real code that contradicts "the service survives" (C10) / "the client returns an error" (C11)
+		if i := strings.Index(e2eCache.out, "\npanic: "); i >= 0 {
+			tail := e2eCache.out[i+1:]
+			first := strings.SplitN(tail, "\n", 2)[0]
+			inService := strings.Contains(tail, ".handleConnection") || strings.Contains(tail, ".HandleMessage")
+			inClient := strings.Contains(tail, "varlink.(*Connection)")
+			if (cfg.prop == "C10" && inService) || (cfg.prop == "C11" && inClient && !inService) {
+				confirmed = true
+				where := ""
+				for _, l := range strings.Split(tail, "\n") {
+					if strings.Contains(l, "/varlink/") && strings.Contains(l, ".go:") && !strings.Contains(l, "_test.go") {
+						where = strings.TrimSpace(l)
+						break
+					}
+				}
+				fmt.Fprintf(&rep, "REPLAY-FAIL prop=%s scenario=crash: the scenario run died in library code: %s at %s\n", cfg.prop, first, where)
+			}
+		}
+	}
 	if !confirmed {
 		if e2eCache.err != nil && !strings.Contains(e2eCache.out, "REPLAY-DONE") {
 			fmt.Fprintf(&rep, "scenario run: %v\n%s\n", e2eCache.err, firstLines(e2eCache.out, 20))
